@@ -163,6 +163,15 @@ SOURCES = [
     "local l = import 'lib.libsonnet'; l.condnested.inner.z",
     "local l = import 'lib.libsonnet'; l.conddeep.y + l.msgfail.y",
     "(std.extVar('lib').condfail + { z: 1 }).z",
+    # 104.. run-time names on objects whose assertion fails: which error is reported must not depend on what was interned before
+    "{ assert false : 'bad', a: 1 }['zq' + 'x']",
+    "std.extVar('lib').obj['zq' + 'y']",
+    "{ assert self.a > 1 : 'small', a: 1 }['zq' + 'w']",
+    "std.extVar('lib').condfail['zq' + 'v']",
+    "local o = { assert false : 'bad', zqu: 1 }; o['zq' + 'u']",
+    "std.get({ assert false : 'bad' }, 'zq' + 't', 0)",
+    "std.objectHas({ assert false : 'bad' }, 'zq' + 'x')",
+    "{ assert false : 'bad' } + { ['zq' + 'x']: 1 }",
 ]
 FUNCS = {20, 21, 22, 23, 49, 88}
 STACKS = [5, 20, 45, 60, 130, 500]
@@ -184,6 +193,7 @@ THEMES = [
     [71, 72, 73, 5, 6, 4],                              # arrays derived from shared arrays (elements are shared thunks)
     [78, 79, 80, 81, 82, 83, 84, 85, 86, 87, 88, 89, 90, 91],   # run-time names vs names interned by other sources
     [92, 93, 94, 95, 96, 97, 98, 99, 100, 101, 102, 103, 1, 2],  # requests that die inside an assertion
+    [104, 105, 106, 107, 108, 109, 110, 111, 79, 78, 7],          # run-time names on objects whose assertion fails
     list(range(len(SOURCES))),
 ]
 
